@@ -8,7 +8,7 @@ from gen import DELIMS, bytes_upto, all_bounds
 LEVEL = "proof"
 
 
-def run(chk):
+def _run_once(chk):
     chk.rule = ("seeded random field-mode cases (delimiters -,--,ab,aba,é,TAB,',' ; records over the delimiter's bytes, x, y, "
                 "the other of LF/NUL, CR, 0xFF; 1-3 records with/without final EOL; 1-3 bounds with sides in ±4/open, plain or "
                 "formatted, fallbacks; random subsets of -g -p -t -s -j -r -z --fallback-oob) through read_and_cut_str, the fast lane "
@@ -42,3 +42,9 @@ def run(chk):
     # end to end: the real binary on random accepted field-mode command lines vs the model
     cli_roundtrip(chk, build_tuc(release=False), 2000 if chk.tier == "quick" else 20000,
                   want=lambda a: len(a) >= 1 and not any(x in a for x in ("-c", "-b", "-l")))
+
+
+def run(chk):
+    # thorough = several independent rounds of the same generators (the PRNG keeps advancing), so that memory stays bounded
+    for _round in range(1 if chk.tier == "quick" else 6):
+        _run_once(chk)
